@@ -20,7 +20,7 @@ struct WorldSpec {
 
 fn build_worlds(thorough: bool) -> (Vec<WorldSpec>, Value) {
     let mut ws = Vec::new();
-    let u1 = uni::u1();
+    let u1 = if thorough { uni::u1() } else { uni::u1_quick() };
     let mut n_a = 0;
     let push = |ws: &mut Vec<WorldSpec>, t: &Ty, pos: Pos, is_async: bool, tag: &str| {
         ws.push(WorldSpec {
@@ -46,8 +46,18 @@ fn build_worlds(thorough: bool) -> (Vec<WorldSpec>, Value) {
     }
     // nested payload of option/list/result/future/stream
     let mut n_nested = 0;
-    for t in &u1 {
-        if t.depth() == 0 {
+    // quick: the payload is a constructor over {u8, string, own}; thorough: all of U1
+    let nested_inner: Vec<Ty> = if thorough {
+        u1.clone()
+    } else {
+        [Ty::Prim("u8"), Ty::Prim("string"), Ty::Own]
+            .iter()
+            .flat_map(|l| uni::apply_all(l, false))
+            .chain([Ty::Enum(2), Ty::Flags(9)])
+            .collect()
+    };
+    for t in &nested_inner {
+        if t.depth() == 0 && !matches!(t, Ty::Enum(_) | Ty::Flags(_)) {
             continue; // wrapper(leaf) is already in U1
         }
         for w in uni::wrappers(t) {
@@ -98,6 +108,8 @@ fn build_worlds(thorough: bool) -> (Vec<WorldSpec>, Value) {
     }
     let bounds = json!({
         "leaves": uni::leaves().iter().map(|t| t.kind()).collect::<Vec<_>>(),
+        "leaves_below_constructors": if thorough { uni::leaves() } else { uni::leaves_quick() }.iter().map(|t| t.kind()).collect::<Vec<_>>(),
+        "quick_tier_note": "quick: every leaf bare; every constructor over the 9 class-representative leaves; list/option over the other leaves; record/tuple/variant holding all 13 primitives; rust variants other than the default run without --format (a pure post-processing step); thorough: every constructor over every leaf, depth 2, --format everywhere",
         "reduced_leaves_depth2": uni::leaves_reduced().iter().map(|t| t.kind()).collect::<Vec<_>>(),
         "constructors": uni::apply_all(&Ty::Prim("T"), true).iter().map(|t| t.kind()).chain(uni::nullary().iter().map(|t| t.kind())).collect::<BTreeSet<_>>(),
         "positions": uni::POSITIONS.iter().map(|p| p.name()).collect::<Vec<_>>(),
@@ -118,6 +130,7 @@ fn build_worlds(thorough: bool) -> (Vec<WorldSpec>, Value) {
 /// Outcome of one world in one process. `codes`: one char per backend-variant:
 /// o = Ok, e = Err, p = panic (judged), O/E/P = same but the world uses an excluded feature.
 fn run_world(spec: &WorldSpec, bvs: &[Bv]) -> Value {
+    let t_start = std::time::Instant::now();
     let loaded = catch(|| backends::load(&spec.wit));
     let (resolve, world) = match loaded {
         Err(p) => return json!({"invalid": format!("wit-parser panicked: {p}")}),
@@ -130,6 +143,7 @@ fn run_world(spec: &WorldSpec, bvs: &[Bv]) -> Value {
         Ok(Ok(())) => {}
     }
     let feats = exclusions::features(&resolve, world);
+    let t_front = t_start.elapsed().as_micros() as u64;
     let mut codes = String::new();
     let mut panics = Vec::new();
     let mut errs = Vec::new();
@@ -164,7 +178,7 @@ fn run_world(spec: &WorldSpec, bvs: &[Bv]) -> Value {
             c
         });
     }
-    json!({"codes": codes, "panics": panics, "errs": errs, "feats": feats, "t_us": t_us})
+    json!({"codes": codes, "panics": panics, "errs": errs, "feats": feats, "t_us": t_us, "t_front": t_front})
 }
 
 fn run_chunk(specs: &[WorldSpec], bvs: &[Bv]) -> Vec<Value> {
@@ -292,12 +306,32 @@ fn replay(run: &Run, d: Value) -> ! {
 fn main() {
     let mut run = Run::from_args("C16", "exploration");
     vcommon::install_quiet_panic_hook();
+    e7_gen::tune_malloc();
     if let Some(d) = run.replay_detail() {
         replay(&run, d);
     }
     let table = exclusions::verify_tables();
-    let bvs = backends::all_bvs();
-    let (worlds, bounds) = build_worlds(run.thorough());
+    let mut bvs = backends::all_bvs();
+    if !run.thorough() {
+        for b in bvs.iter_mut() {
+            if b.backend == "rust" && !b.variant.is_empty() {
+                b.args.retain(|a| *a != "--format");
+            }
+        }
+    }
+    let (mut worlds, bounds) = build_worlds(run.thorough());
+    // debugging knobs (never used by ./check)
+    if let Ok(only) = std::env::var("E7_ONLY") {
+        bvs.retain(|b| only.split(',').any(|o| o == b.label()));
+    }
+    if let Ok(n) = std::env::var("E7_STRIDE") {
+        let n: usize = n.parse().unwrap();
+        let mut i = 0;
+        worlds.retain(|_| {
+            i += 1;
+            i % n == 0
+        });
+    }
     let chunk = 48usize;
     let nchunks = worlds.len().div_ceil(chunk);
     let rot = (run.seed as usize) % nchunks.max(1);
@@ -336,6 +370,7 @@ fn main() {
     let mut samples = vcommon::Samples::new(12);
     let mut worlds_with_excluded = 0usize;
     let mut cpu_us = vec![0u64; bvs.len()];
+    let mut front_us = 0u64;
     let mut dump = std::env::var("E7_DUMP").ok().map(|p| std::fs::File::create(p).unwrap());
     for (wi, v) in per_world.iter().enumerate() {
         let spec = &worlds[wi];
@@ -343,6 +378,7 @@ fn main() {
             use std::io::Write;
             writeln!(f, "{}\t{}", spec.class, v).ok();
         }
+        front_us += v["t_front"].as_u64().unwrap_or(0);
         for (bi, t) in v["t_us"].as_array().into_iter().flatten().enumerate() {
             cpu_us[bi] += t.as_u64().unwrap_or(0);
         }
@@ -386,8 +422,7 @@ fn main() {
             let bi = p[0].as_u64().unwrap() as usize;
             let raw = p[1].as_str().unwrap_or("").to_string();
             let excl = p[2].as_str().map(|s| s.to_string());
-            let (file, msg, _line) = e7_gen::split_panic(&raw);
-            let key = format!("{}:{}:{}", bvs[bi].backend, file, msg);
+            let (key, _at) = e7_gen::panic_key(bvs[bi].backend, &raw);
             let len = match &spec.wit {
                 Wit::Text(t) => t.len(),
                 Wit::Path(_) => usize::MAX / 2,
@@ -484,6 +519,7 @@ fn main() {
         "dropped_invalid_by_parser_message": top_invalid.iter().take(25).map(|(m, (c, ex))| json!({"message": m, "count": c, "example": ex})).collect::<Vec<_>>(),
         "validity": "wit-parser parse+resolve+select_world, then wit_component::encode + wasmparser validation (all proposals)",
         "backend_variants": per_bv_json,
+        "front_end_ms_parse_validate_classify": front_us / 1000,
         "worlds_using_an_excluded_feature_for_some_backend": worlds_with_excluded,
         "exclusion_table": table,
         "panic_keys_judged": judged_keys,
